@@ -66,6 +66,10 @@ class ExprMixin:
                 sub = self.resolve_module((mod + "." + attr) if not mod.endswith(".") else mod + attr, module)
                 if sub is not None:
                     return ModRef(sub)
+            if target is None and attr is not None:
+                sub = self.resolve_module((mod + attr) if mod.endswith(".") else (mod + "." + attr), module)
+                if sub is not None:
+                    return ModRef(sub)
             ext = self.theory.external(self, mod, attr or name) if self.theory else None
             if ext is not None:
                 return ext
@@ -140,7 +144,19 @@ class ExprMixin:
         if not abstract:
             return cur
         parts.append(cur)
-        return Concat([p for p in parts if not (isinstance(p, list) and not p)])
+        parts = [p for p in parts if not (isinstance(p, list) and not p)]
+        shape = next(p.shape for p in parts if not isinstance(p, list))
+        acc = None
+        for p in parts:
+            if acc is None:
+                acc = self.materialize(p) if isinstance(p, SliceView) else (p if isinstance(p, AList) else self.as_alist(p, shape))
+                acc = AList(acc.shape, acc.arr, acc.off, acc.n, kind is tuple)
+            elif isinstance(p, list):
+                for x in p:
+                    acc = self.alist_append(acc, x)
+            else:
+                acc = self.alist_concat(acc, p)
+        return acc
 
     def ev_Dict(self, e, fr):
         return {self.ev(k, fr): self.ev(v, fr) for k, v in zip(e.keys, e.values)}
@@ -426,6 +442,8 @@ class ExprMixin:
             if z3.is_expr(x):
                 return z3.And(o.has, o.val == x)
             return False
+        if self.theory is not None and hasattr(self.theory, "coerce_eq") and (isinstance(l, str) or isinstance(r, str)):
+            l, r = self.theory.coerce_eq(l, r)
         if z3.is_expr(l) or z3.is_expr(r):
             if l is None or r is None:
                 return False
@@ -614,9 +632,9 @@ class ExprMixin:
             sh = container.shape
             it = sh.enc(item)
             if hasattr(sh, "eq_terms"):
-                body = sh.eq_terms(self, z3.Select(container.arr, containei), it)
+                body = sh.eq_terms(self, z3.Select(container.arr, i), it)
             else:
-                body = z3.Select(container.arr, containei) == it
+                body = z3.Select(container.arr, i) == it
             return z3.Exists([i], z3.And(0 <= i, i < container.n, body))
         if isinstance(container, SetVal):
             return self.contains(container.items, item)
